@@ -83,7 +83,7 @@ def l1_match_type(run, probe):
     return len(pairs), mism
 
 
-def gen_cases(run, spec, nsets, nil_modes):
+def gen_cases(run, spec, nsets, nil_modes, rt=True):
     """sentinel-filled inputs for the root type in both directions; clean and dirty receivers"""
     rng = run.rng
     sty, dty = mh.root_types(spec, spec["root"])
@@ -99,7 +99,7 @@ def gen_cases(run, spec, nsets, nil_modes):
             cases.append({"dir": "from", "type": spec["root"], "in": mapgen.gen_value(rng, spec, dty, mode, sent),
                           "recv": recv})
     # round trip new(S).FromX(v.ToX()): the same inputs as the ToX cases (every other one) and a fully allocated one
-    if way == "both":
+    if way == "both" and rt:
         tos = [c for c in cases if c["dir"] == "to"]
         for c in tos[::2]:
             cases.append({"dir": "rt", "type": spec["root"], "in": c["in"], "recv": None})
